@@ -1025,6 +1025,17 @@ def laws(rng, tier, ctx):
         if enc(out) != enc(exp):
             yield Finding('violation', dict(tag='law-lib', lines=['(lift lib %s %s %s)' % (proto.hexs(name), enc(v), enc(kw))]),
                           '%s gives %s, leaf-wise application gives %s' % (name, enc(out), enc(exp)))
+            continue
+        # the VALUE of the call may not depend on what the caller did to an earlier result: every list in the result is edited in
+        # place and the same call is made again (seeded C19-u2: the per-leaf split memoised, the cached list handed out)
+        from pv import alias
+        e_exp = enc(exp)            # encoded BEFORE the edit: the reference applies the library's own leaf function and may hold the same objects
+        alias.scribble(out)
+        count += 1
+        again = getattr(pyg_base, name)(copy.deepcopy(v), **copy.deepcopy(kw))
+        if enc(again) != e_exp:
+            yield Finding('violation', dict(tag='law-lib-again', lines=['(lift lib %s %s %s)' % (proto.hexs(name), enc(v), enc(kw))]),
+                          'after its first result was edited in place, the same %s call gives %s, leaf-wise application gives %s' % (name, enc(again), e_exp))
     # (6) the same statement on containers the wire format cannot spell: namedtuples (a tuple subclass built from separate
     # fields) and dicts whose keys are ints / strings / None mixed; companions scalar or of the same shape
     for j in range(n // 2):
